@@ -89,6 +89,14 @@ func NewGeomKind(seed int64, small, wholeBlock bool) *Geom {
 	return g
 }
 
+// NewGeomCustom builds a geometry from explicit blocks and boxes (block edge bs; a voxel belongs
+// to the region of the first box containing it, otherwise to the default region of its block).
+func NewGeomCustom(bs int, blocks [][3]int, boxes []Box, boxReg []int, defReg []int, regions int) *Geom {
+	g := &Geom{BS: bs, Blocks: blocks, Boxes: boxes, BoxReg: boxReg, DefReg: defReg, R: regions}
+	g.finish()
+	return g
+}
+
 func (g *Geom) finish() {
 	g.blockOf = map[[3]int]int{}
 	for i, b := range g.Blocks {
